@@ -24,15 +24,11 @@
    of the monitor are sticky).  A trace is REJECTED when the second one does not reach the end;
    it is additionally reported LATEONLY when the first one does - i.e. the only thing wrong with
    it is an action that started after a covered dispose() had returned.                         *)
-EXTENDS Integers, Sequences, FiniteSets, TLC, TLCExt, IOUtils, Json
+EXTENDS AsyncIOSched, TLCExt, IOUtils
 
-CONSTANTS NTraces, Items
+CONSTANTS NTraces
 
-VARIABLES loopTh, gen, now, it, lost, variant, scn, hs, ready, timers, hl, fut, lp, q, ex, fwake, go, idled, woken, own, tid, l
-
-NoFamily(v) == {}
-NoOwnLoops(v, s) == {{}}
-INSTANCE AsyncIOSched WITH Foreign <- {"F", "G"}, Variants <- {"own"}, OwnSets <- NoOwnLoops, Family <- NoFamily
+VARIABLES tid, l
 
 Traces == JsonDeserialize(IOEnv.TRACE_FILE)
 
@@ -56,8 +52,7 @@ TLoopStart == More /\ Ev.e = "ls" /\ Step /\ MLoopStart(Ev.th, Ev.t)
 TLoopStop  == More /\ Ev.e = "lx" /\ Step /\ MLoopStop(Ev.th, Ev.t)
 TIdle      == More /\ Ev.e = "id" /\ Step /\ MIdle(Ev.th, Ev.t)
 
-\* (spelled out: TLC cannot evaluate UNCHANGED of a tuple DEFINED in the instantiated module)
-Frozen == UNCHANGED <<variant, scn, hs, ready, timers, hl, fut, lp, q, ex, fwake, go, idled, woken, own>>
+Frozen == UNCHANGED mech
 TNext == (TSchedCall \/ TSchedRet \/ TDispCall \/ TDispRet \/ TStart \/ TLoopStart \/ TLoopStop \/ TIdle) /\ Frozen
 
 \* registers: tid = furthest position with NoStartAfterDisposeReturned true, NTraces + tid = furthest position
